@@ -20,16 +20,26 @@
    rules of Spec/Defs.v (the strict ones), define exactly `abs_doc_of` (WF_print_derivation); C01_complete and C02_tree
    then give acceptance and the decoded data (WF_print_parse).  No new reasoning about the parser.
 
+   PARSED DOCUMENTS.  `parse_WF`: every accepted document, despanned (ImDocument::into_mut), satisfies ALL clauses of WF
+   except `order_ok` — proved through the parser (Proofs/WFParse*.v: decor / reprs / keys / values / limits), C09's
+   simulation (keys distinct, no Item::None, arrays of tables non-empty) and the specification side (a tree built by the
+   definition rules has no empty super-table and no line-less dotted table).
+
    NOT COVERED (stated exactly):
-     * documents whose sections are not in the order of the tree walk ("[a]\n[b]\n[a.c]", "[t.a.q]\n[t]"): `order_ok`
-       fails for them (wfb_ex_unordered);
-     * `parse_document s = POk d -> WF (despan)` (parse_WF) is not proved in general; `C03_general_reparse_partial`
-       below takes the two facts about the parsed tree as DECIDABLE premises (`reparse_check`), so it is a certified
-       check on any given document rather than a statement about all of them. *)
+     * `order_ok`: documents whose sections are not in the order of the tree walk ("[a]\n[b]\n[a.c]", "[t.a.q]\n[t]")
+       fail it (wfb_ex_unordered); the derivation would have to follow Display's sort by position instead;
+     * for C03's general clause two premises about the parsed tree remain, both DECIDABLE and checked by
+       `order_data_check`: order_b, and `abs_doc_of (despanned tree) = abs_doc d`.  The second fails exactly when some
+       table got a sub-table before one of its key/value lines ("[t.s]\n[t]\nx=1": Display moves x in front) — excluded
+       by order_b for parsed documents, not yet proved — or when a super-table received a dotted key, class U1
+       (wfb_ex_u1: "[t.a.b]\n[t]\na.c.x=1" prints `[t.a]` for the super-table a, and the re-parsed tree has
+       kind KHeader where the original has KSuper: `abs_doc d' = abs_doc d` is FALSE there, the data apart from the
+       kinds being equal). *)
 From TV Require Import Base.Prelude Base.Utf8 Base.Winnow Gen.Consts Spec.Abnf Spec.Lex Spec.Defs Spec.Syntax Spec.WF.
 From TV Require Import Model.Tree Model.Parse Model.Document Model.Encode.
 From TV Require Import Proofs.GrammarBase Proofs.PrintBackBase.
-From TV Require Import Proofs.WFSem Proofs.WFSemDoc Proofs.WFBool Proofs.WFBoolSound Proofs.WFPrintValue Proofs.WFTree Proofs.WFPrintTop Proofs.WFReparse.
+From TV Require Import Proofs.WFSem Proofs.WFSemDoc Proofs.WFBool Proofs.WFBoolSound Proofs.WFPrintValue Proofs.WFTree Proofs.WFPrintTop Proofs.WFReparse
+                       Proofs.WFParseTop Proofs.WFReparseParsed.
 Require Import String Ascii.
 
 (* ---- the backbone ------------------------------------------------------------------------------------------------------- *)
@@ -78,19 +88,35 @@ Theorem WF_dotted_lines_define : forall (V : Type) (l : list (bytes * dnode V)),
 Proof. exact dfold_run. Qed.
 Print Assumptions WF_dotted_lines_define.
 
-(* ---- parsed documents (C03, general clause): a certified check --------------------------------------------------------- *)
-(* FULL STATEMENT (target):
+(* ---- parsed documents ---------------------------------------------------------------------------------------------------- *)
+(* every accepted document, despanned, is well-formed apart from the order of its sections *)
+Theorem parse_WF : forall s d r t,
+  parse_document s = POk d -> tbl_despan s (doc_root d) = Some r -> raw_despan s (doc_trailing d) = Some t ->
+  (t_dotted r = false /\ tbl_wf true r /\ tbl_lim 0 0 r) /\ raw_ok SDocTrail t.
+Proof. exact WFParseTop.parse_WF. Qed.
+Print Assumptions parse_WF.
+
+(* ... and wholly well-formed when its sections come in the order of the tree walk *)
+Theorem parse_WF_ordered : forall s d r t,
+  parse_document s = POk d -> tbl_despan s (doc_root d) = Some r -> raw_despan s (doc_trailing d) = Some t ->
+  order_ok r -> WFdoc r t.
+Proof. exact parsed_WF. Qed.
+Print Assumptions parse_WF_ordered.
+
+(* C03, general clause.  FULL STATEMENT (target):
      C03_general_reparse : parse_document s = POk d -> print_doc s d = Some o ->
                            exists d', parse_document o = POk d' /\ abs_doc d' = abs_doc d.
-   PROVED: the same under the decidable premise `reparse_check s d = true` (the despanned tree passes `wfdoc_b`, and
-   `abs_doc_of` of it is the document's data).  MISSING for the full statement: parse_WF (every parsed document,
-   despanned, is WF — except `order_ok`, which is false for some) and the generalisation of `order_ok`. *)
-Theorem C03_general_reparse_partial : forall s d,
-  parse_document s = POk d -> reparse_check s d = true ->
-  exists o d', print_doc s d = Some o /\ parse_document o = POk d' /\ abs_doc d' = abs_doc d.
-Proof. exact reparse_checked. Qed.
+   It is FALSE as it stands for class U1 (wfb_ex_u1 below).
+   PROVED: under the decidable premise `order_data_check s d = true` (see NOT COVERED above).
+   MISSING: the generalisation of `order_ok` to Display's order; and, for documents outside class U1 whose sections
+   are in walk order, the proof that `abs_doc_of` of the parsed tree is its `abs_doc`. *)
+Theorem C03_general_reparse_partial : forall s d o,
+  parse_document s = POk d -> print_doc s d = Some o -> order_data_check s d = true ->
+  exists d', parse_document o = POk d' /\ abs_doc d' = abs_doc d.
+Proof. exact reparse_ordered. Qed.
 Print Assumptions C03_general_reparse_partial.
 
+(* for any tree, parsed or not, with the facts given as premises *)
 Theorem C03_general_reparse_of_WF : forall s d r t,
   parse_document s = POk d -> tbl_despan s (doc_root d) = Some r -> raw_despan s (doc_trailing d) = Some t ->
   WFdoc r t -> abs_doc_of r = abs_doc d ->
@@ -117,10 +143,29 @@ Definition ex_nasty : bytes :=
        ++ "[[t.u]]" ++ lf ++ "k = 'v'" ++ lf ++ "[[t.u]]" ++ lf ++ "[t.u.v]" ++ lf ++ "z=1e3" ++ lf
        ++ "[t.p.q.s]" ++ lf ++ "e = " ++ dq ++ dq ++ dq ++ cr ++ lf ++ "x" ++ cr ++ lf ++ dq ++ dq ++ dq ++ lf
        ++ "[ " ++ dq ++ "a b" ++ dq ++ " . 'c' ]" ++ lf ++ " 'k' . " ++ dq ++ "l" ++ dq ++ "  =  true  " ++ lf ++ " # last").
-Example wfb_ex_nasty : exists d, parse_document ex_nasty = POk d /\ reparse_check ex_nasty d = true.
+Example wfb_ex_nasty : exists d, parse_document ex_nasty = POk d /\ reparse_check ex_nasty d = true /\ order_data_check ex_nasty d = true.
 Proof.
   destruct (parse_document ex_nasty) as [d| |] eqn:E.
-  - exists d. split; [reflexivity|]. revert E. vm_compute. intro E. inversion E; subst d. vm_compute. reflexivity.
+  - exists d. split; [reflexivity|]. revert E. vm_compute. intro E. inversion E; subst d. split; vm_compute; reflexivity.
+  - exfalso. revert E. vm_compute. discriminate.
+  - exfalso. revert E. vm_compute. discriminate.
+Qed.
+
+(* class U1: a dotted key through a table that exists only as a super-table.  The document is accepted, its despanned
+   tree is well-formed (sections in walk order too), it prints as valid TOML — `[t.a]` now has a header — and the
+   re-parsed tree differs from the original in the KIND of t.a only *)
+Definition ex_u1 : bytes := txt ("[t.a.b]" ++ lf ++ "[t]" ++ lf ++ "a.c.x=1" ++ lf).
+Example wfb_ex_u1 :
+  exists d r o d', parse_document ex_u1 = POk d /\ tbl_despan ex_u1 (doc_root d) = Some r /\ wf_b r = true
+    /\ print_doc ex_u1 d = Some o /\ o = txt ("[t.a.b]" ++ lf ++ "[t]" ++ lf ++ lf ++ "[t.a]" ++ lf ++ "c.x=1" ++ lf)
+    /\ parse_document o = POk d' /\ abs_doc d' <> abs_doc d
+    /\ abs_doc d' = [(txt "t", NTab KHeader [(txt "a", NTab KHeader [(txt "b", NTab KHeader []); (txt "c", NTab KDotted [(txt "x", NVal (DInt 1))])])])]
+    /\ abs_doc d  = [(txt "t", NTab KHeader [(txt "a", NTab KSuper  [(txt "b", NTab KHeader []); (txt "c", NTab KDotted [(txt "x", NVal (DInt 1))])])])].
+Proof.
+  destruct (parse_document ex_u1) as [d| |] eqn:E.
+  - exists d. revert E. vm_compute. intro E. inversion E; subst d. eexists. eexists. eexists.
+    split; [reflexivity|]. split; [reflexivity|]. split; [reflexivity|]. split; [reflexivity|]. split; [reflexivity|].
+    split; [reflexivity|]. split; [discriminate|]. split; reflexivity.
   - exfalso. revert E. vm_compute. discriminate.
   - exfalso. revert E. vm_compute. discriminate.
 Qed.
